@@ -522,6 +522,15 @@ class SV:
     numpy_scalar_mode = False  # broadcast list/tuple operands like a numpy scalar (advanced.py)
 
     def __init__(self, n, d=(), c=None, t=False):
+        if not z3.is_expr(n):  # the library may call type(x)(0) on one of our values
+            if isinstance(n, SV):
+                n, d, c, t = n.n, n.d, n.c, n.t
+            else:
+                fr = _const(n)
+                if fr is None:
+                    raise TypeError(f"cannot make a symbolic number from {n!r}")
+                t = t or _is_float(n)
+                n, d, c = _rv(fr), (), fr
         self.n = n
         self.d = d
         self.c = c
